@@ -14,7 +14,7 @@
 (*   c  classification labels computed by the spec (wall class, fold, ...)   *)
 (*   v  failed clauses, << <<clause, expected>>, ... >>; empty = conforming  *)
 (***************************************************************************)
-EXTENDS OpsRange, OpsModifiers, OpsCalendar, OpsDuration, IsoForms, TLCExt
+EXTENDS OpsRange, OpsModifiers, OpsCalendar, OpsDuration, IsoForms, FormatTokens, TLCExt
 
 T == JsonDeserialize(IOEnv.PV_TRACE)
 VARIABLES l, nbad
@@ -605,6 +605,66 @@ J_parse_any(e) ==
            ELSE <<>>)
        \o (IF okd THEN CmpParsedDur(p.top, rd, "recognised-duration") ELSE <<>>))
 
+\* ---- C08 -----------------------------------------------------------------------------
+ItemKinds(items) == [i \in 1..Len(items) |-> <<items[i][1], items[i][2]>>]
+TokSet(items) == {items[i][2] : i \in {j \in 1..Len(items) : items[j][1] = "tok"}}
+J_format(e) ==
+  LET s == Src(e)  a == e.a  L == LOC[a.locale]
+      want == FormatItems(a.items, s, a.zname, L, 1)
+  IN R(<<a.method, a.locale, B(IsNaive(s)), B(OffOf(s) < 0), ClassOf(s)>>,
+       V("format-string", RenderFormat(a.items, 1) = a.fmt, RenderFormat(a.items, 1))
+       \o (IF a.named # "" THEN V("named-composition", ItemKinds(a.items) = NamedFormat(a.named), a.named) ELSE <<>>)
+       \o (IF e.post.k = "exc" THEN << <<"unexpected-exception", e.post.names>> >>
+           ELSE IF e.post.k # "str" THEN << <<"kind", e.post.k>> >>
+           ELSE V("output", e.post.v = want, want)))
+HasAny(ts, set) == ts \cap set # {}
+CompleteFormat(ts) == /\ HasAny(ts, {"YYYY", "Y"}) /\ HasAny(ts, {"MM", "M", "MMMM", "MMM"}) /\ HasAny(ts, {"DD", "D", "Do"})
+                      /\ (HasAny(ts, {"HH", "H"}) \/ (HasAny(ts, {"hh", "h"}) /\ "A" \in ts))
+                      /\ HasAny(ts, {"mm", "m"}) /\ HasAny(ts, {"ss", "s"}) /\ "SSSSSS" \in ts /\ HasAny(ts, {"Z", "ZZ", "z"})
+J_from_format(e) ==
+  LET s == Src(e)  a == e.a  L == LOC[a.locale]  p == e.post
+      ts == TokSet(a.items)
+      text == FormatItems(a.items, s, a.zname, L, 1)
+      complete == CompleteFormat(ts)
+      hasDate == HasAny(ts, {"YYYY", "Y", "YY", "MM", "M", "MMMM", "MMM", "DD", "D", "Do", "DDDD", "DDD", "Q"})
+      hasEsc == \E i \in 1..Len(a.items) : a.items[i][1] = "esc"
+      slashes == Cardinality({i \in 1..Len(a.zname) : a.zname[i] = cSlash})
+  IN IF OffOf(s) % 60 # 0 \/ ("z" \in ts /\ s.z.n = "") THEN R(<<"outside-the-statement">>, <<>>) ELSE   \* whole-minute offsets, IANA names
+     R(<<a.kind, a.locale, B(complete), "esc", B(hasEsc), "z", B("z" \in ts), B(HasAny(ts, {"MMMM", "MMM"})), B(HasAny(ts, {"DDDD", "DDD"})),
+         "tokY", B("Y" \in ts), "zone-parts", N(slashes)>>,
+       V("format-string", RenderFormat(a.items, 1) = a.fmt, RenderFormat(a.items, 1))
+       \o V("formatted", p.text = text, text)
+       \o (IF a.kind = "mismatch"
+           THEN V("mismatch-must-raise-ValueError", IsValueError(p.back), "ValueError")
+           ELSE IF p.back.k = "exc" THEN << <<"rejects-own-output", p.back.names>> >>
+           ELSE IF p.back.k # "dt" THEN << <<"kind", p.back.k>> >>
+           ELSE IF complete THEN V("class", p.back.cls = "DateTime", "DateTime") \o V("fields", p.back.w = s.w, s.w)
+                                 \o V("offset", p.back.off = OffOf(s), OffOf(s))
+           ELSE IF ~hasDate THEN V("date-from-now", <<p.back.w[1], p.back.w[2], p.back.w[3]>> = <<a.now[1], a.now[2], a.now[3]>>, a.now)
+           ELSE <<>>))
+
+\* ---- C18 -----------------------------------------------------------------------------
+J_humanize(e) ==
+  LET a == e.a  p == e.post  L == LOC[a.locale]
+      c == a.comps
+      dir == IF a.invert THEN "future" ELSE "past"
+      cands == HumanCandidates(L, c, a.is_now, a.absolute, dir)
+      li == LargestIdx(c)
+  IN R(<<a.entry, a.locale, (IF li = 0 THEN "zero" ELSE HUnits[li]), B(a.is_now), B(a.absolute), dir,
+         "plural", (IF li = 0 THEN "-" ELSE PluralCat(L, c[li]))>>,
+       IF p.k = "exc" THEN << <<"unexpected-exception", p.names>> >>
+       ELSE IF p.k # "str" THEN << <<"kind", p.k>> >>
+       ELSE V("non-empty", Len(p.v) > 0, "non-empty") \o V("placeholders-substituted", ~Has(p.v, 123) /\ ~Has(p.v, 125), "no { }")
+            \o V("phrase", p.v \in cands, cands))
+J_in_words(e) ==
+  LET a == e.a  p == e.post  L == LOC[a.locale]
+      want == InWordsR(L, a.comps, a.sep, 1)
+  IN R(<<a.entry, a.locale, B(want = <<>>)>>,
+       IF p.k = "exc" THEN << <<"unexpected-exception", p.names>> >>
+       ELSE IF p.k # "str" THEN << <<"kind", p.k>> >>
+       ELSE V("non-empty", Len(p.v) > 0, "non-empty") \o V("placeholders-substituted", ~Has(p.v, 123) /\ ~Has(p.v, 125), "no { }")
+            \o (IF want = <<>> THEN <<>> ELSE V("words", p.v = want, want)))
+
 \* ---- C15 -----------------------------------------------------------------------------
 J_year_prims(e) == LET y == e.a.y IN
    R(<<B(IsLeap(y)), B(IsLongYear(y))>>,
@@ -665,6 +725,10 @@ Judge(e) == CASE e.op = "in_tz" -> J_in_tz(e)
               [] e.op = "dur_parse" -> J_dur_parse(e)
               [] e.op = "iv_parse" -> J_iv_parse(e)
               [] e.op = "parse_any" -> J_parse_any(e)
+              [] e.op = "format" -> J_format(e)
+              [] e.op = "from_format" -> J_from_format(e)
+              [] e.op = "humanize" -> J_humanize(e)
+              [] e.op = "in_words" -> J_in_words(e)
               [] e.op = "year_prims" -> J_year_prims(e)
               [] e.op = "year_weekdays" -> J_year_weekdays(e)
               [] e.op = "year_getters" -> J_year_getters(e)
